@@ -277,8 +277,8 @@ def drive(prop, tier, seed, jobs=None, replay=None):
              "tier": tier, "reach_funcs": reach_funcs}
     if not replay:
         # M11: the mechanism the property is anchored in must have been executed by this run's workload
-        for rel, qual in getattr(mod, "ANCHOR_FUNCS", ()):
-            if not reach.entered(reach_funcs, rel, qual):
+        for rel, qual in getattr(mod, "ANCHOR_FUNCS", reach.ANCHOR_FUNCS.get(prop, ())):
+            if reach.exists(reach_funcs, rel, qual) and not reach.entered(reach_funcs, rel, qual):
                 inconclusive.append("anchored function %s:%s was never executed by this run" % (rel, qual))
     if merged.outcomes.get("harness-error"):
         inconclusive.append("harness errors: %s" % json.dumps(merged.extra.get("harness_errors", [])[:2])[:1500])
@@ -370,6 +370,9 @@ def drive(prop, tier, seed, jobs=None, replay=None):
                 anchor_files = set(pd["anchors"]["files"])
     except Exception:
         pass
+    anchors_ = getattr(mod, "ANCHOR_FUNCS", reach.ANCHOR_FUNCS.get(prop, ()))
+    ev["coverage"]["anchor_functions_entered"] = ["%s:%s" % (rel, q) for rel, q in anchors_ if reach.entered(reach_funcs, rel, q)]
+    ev["coverage"]["anchor_functions_no_longer_present"] = ["%s:%s" % (rel, q) for rel, q in anchors_ if not reach.exists(reach_funcs, rel, q)]
     ev["coverage"]["anchor_files"] = {rel: reach_summary["by_file"].get(rel) for rel in sorted(anchor_files)}
     ev["coverage"]["functions_never_entered_in_anchor_files"] = [u for u in reach_unreached
                                                                   if u.split(":")[0] in anchor_files]
